@@ -187,6 +187,8 @@ impl RocksDB {
         K: AsRef<[u8]>,
         V: AsRef<[u8]>,
     {
+        #[cfg(feature = "verif-hooks")]
+        crate::verif::point("put-default");
         self.inner.put(key, value).map_err(internal_error)
     }
 
@@ -258,6 +260,8 @@ impl RocksDB {
 
     /// Write batch into transaction db.
     pub fn write(&self, batch: &RocksDBWriteBatch) -> Result<()> {
+        #[cfg(feature = "verif-hooks")]
+        crate::verif::point("batch-write");
         self.inner.write(&batch.inner).map_err(internal_error)
     }
 
@@ -279,6 +283,8 @@ impl RocksDB {
     ///
     /// Default: false
     pub fn write_sync(&self, batch: &RocksDBWriteBatch) -> Result<()> {
+        #[cfg(feature = "verif-hooks")]
+        crate::verif::point("batch-write-sync");
         let mut wo = WriteOptions::new();
         wo.set_sync(true);
         self.inner
